@@ -1,22 +1,154 @@
+#![allow(dead_code, unused_imports, unused_variables)]
+mod crypto;
+mod oracles;
+mod providers;
+mod replay;
 mod treemath;
+mod world;
 
-use serde_json::json;
+use rand::{rngs::StdRng, Rng, SeedableRng};
+use serde_json::{json, Value};
+use std::collections::{BTreeMap, BTreeSet};
+use std::io::BufRead;
 
 fn arg(args: &[String], name: &str) -> Option<String> {
     args.iter().position(|a| a == name).and_then(|i| args.get(i + 1).cloned())
 }
-fn arg_u64(args: &[String], name: &str, d: u64) -> u64 { arg(args, name).and_then(|v| v.parse().ok()).unwrap_or(d) }
+fn arg_u64(args: &[String], name: &str, d: u64) -> u64 {
+    arg(args, name).and_then(|v| v.parse().ok()).unwrap_or(d)
+}
+fn flag(args: &[String], name: &str) -> bool {
+    args.iter().any(|a| a == name)
+}
+
+pub fn pick_opts(seed: u64, idx: u64, mixed: bool) -> world::Opts {
+    use crypto::Backend;
+    let mut rng = StdRng::seed_from_u64(seed.wrapping_mul(0x9E37_79B9_7F4A_7C15).wrapping_add(idx));
+    let all = Backend::all();
+    let mut backends: Vec<Backend> = vec![];
+    if mixed {
+        let k = rng.random_range(1..=3usize);
+        let start = rng.random_range(0..3usize);
+        for i in 0..k {
+            backends.push(all[(start + i) % 3]);
+        }
+    } else {
+        backends.push(Backend::Openssl);
+    }
+    let suites: Vec<u16> = (1u16..=7).filter(|s| backends.iter().all(|b| b.supports((*s).into()))).collect();
+    let suite = suites[rng.random_range(0..suites.len())];
+    world::Opts {
+        suite,
+        path_required: false,
+        ratchet_tree_ext: rng.random_bool(0.5),
+        single_welcome: rng.random_bool(0.5),
+        encrypt_controls: rng.random_bool(0.5),
+        retention: 3,
+        sqlite: false,
+        backends,
+    }
+}
+
+fn opts_json(o: &world::Opts) -> Value {
+    json!({"suite": o.suite, "ratchet_tree_ext": o.ratchet_tree_ext, "single_welcome": o.single_welcome,
+           "encrypt_controls": o.encrypt_controls, "retention": o.retention, "sqlite": o.sqlite,
+           "backends": o.backends.iter().map(|b| b.name()).collect::<Vec<_>>()})
+}
+
+fn opts_from_json(v: &Value) -> world::Opts {
+    use crypto::Backend;
+    world::Opts {
+        suite: v["suite"].as_u64().unwrap_or(1) as u16,
+        path_required: false,
+        ratchet_tree_ext: v["ratchet_tree_ext"].as_bool().unwrap_or(true),
+        single_welcome: v["single_welcome"].as_bool().unwrap_or(true),
+        encrypt_controls: v["encrypt_controls"].as_bool().unwrap_or(false),
+        retention: v["retention"].as_u64().unwrap_or(3),
+        sqlite: v["sqlite"].as_bool().unwrap_or(false),
+        backends: v["backends"].as_array().map(|a| a.iter().map(|b| match b.as_str().unwrap() { "awslc" => Backend::AwsLc, "rustcrypto" => Backend::RustCrypto, _ => Backend::Openssl }).collect()).unwrap_or(vec![Backend::Openssl]),
+    }
+}
+
+fn cmd_replay(args: &[String]) -> i32 {
+    let input = arg(args, "--in").expect("--in");
+    let seed = arg_u64(args, "--seed", 1);
+    let threads = arg_u64(args, "--threads", 8) as usize;
+    let limit = arg_u64(args, "--limit", u64::MAX) as usize;
+    let out_dir = arg(args, "--out-dir").unwrap_or("/verif/work/replay".into());
+    let mixed = !flag(args, "--single-backend");
+    std::fs::create_dir_all(&out_dir).ok();
+    let f = std::io::BufReader::new(std::fs::File::open(&input).expect("open input"));
+    let behaviours: Vec<Value> = f.lines().filter_map(|l| l.ok()).filter(|l| l.starts_with('{')).take(limit).map(|l| serde_json::from_str(&l).expect("json")).collect();
+    let n = behaviours.len();
+    let chunks: Vec<Vec<(usize, Value)>> = {
+        let mut c: Vec<Vec<(usize, Value)>> = (0..threads).map(|_| vec![]).collect();
+        for (i, b) in behaviours.into_iter().enumerate() {
+            c[i % threads].push((i, b));
+        }
+        c
+    };
+    std::panic::set_hook(Box::new(|_| {}));
+    let handles: Vec<_> = chunks
+        .into_iter()
+        .map(|chunk| {
+            let out_dir = out_dir.clone();
+            std::thread::spawn(move || {
+                let mut res = vec![];
+                for (i, b) in chunk {
+                    // a replay file carries its own options
+                    let opts = match b.get("opts") { Some(o) => opts_from_json(o), None => pick_opts(seed, i as u64, mixed) };
+                    let oj = opts_json(&opts);
+                    let o = replay::run_behaviour(&b, opts, false);
+                    let mut files = vec![];
+                    if !o.viols.is_empty() {
+                        let mut bb = b.clone();
+                        bb["opts"] = oj.clone();
+                        let last = o.viols[0].step;
+                        if let Some(steps) = bb.get_mut("steps").and_then(|s| s.as_array_mut()) { steps.truncate(last + 1); }
+                        bb["violation"] = json!({"step": last, "kind": o.viols[0].kind, "what": o.viols[0].what, "props": o.viols[0].props});
+                        let path = format!("{}/behaviour-{}-{}.json", out_dir, seed, i);
+                        std::fs::write(&path, serde_json::to_string(&bb).unwrap()).ok();
+                        files.push(path);
+                    }
+                    res.push((i, o, files, oj));
+                }
+                res
+            })
+        })
+        .collect();
+    let mut stats: BTreeMap<String, u64> = BTreeMap::new();
+    let mut viols = vec![];
+    let mut steps = 0usize;
+    let mut states: BTreeSet<String> = BTreeSet::new();
+    let mut suites: BTreeMap<String, u64> = BTreeMap::new();
+    for h in handles {
+        for (i, o, files, oj) in h.join().expect("thread") {
+            steps += o.steps_run;
+            for (k, v) in o.stats { *stats.entry(k).or_insert(0) += v; }
+            for s in o.states { states.insert(s); }
+            *suites.entry(format!("suite{}:{}", oj["suite"], oj["backends"])).or_insert(0) += 1;
+            for v in o.viols {
+                viols.push(json!({"behaviour": i, "step": v.step, "props": v.props, "kind": v.kind, "what": v.what, "replay": files.get(0)}));
+            }
+        }
+    }
+    println!("{}", json!({"behaviours": n, "steps": steps, "distinct_states": states.len(), "stats": stats, "configs": suites, "violations": viols}));
+    0
+}
 
 fn main() {
     let args: Vec<String> = std::env::args().collect();
     let cmd = args.get(1).map(|s| s.as_str()).unwrap_or("");
-    match cmd {
+    let rc = match cmd {
         "treemath" => {
             let out = arg(&args, "--out").expect("--out");
             let st = treemath::dump(&out, arg_u64(&args, "--max-log", 12) as u32, arg_u64(&args, "--pair-log", 7) as u32,
                 arg_u64(&args, "--samples", 2000) as u32, arg_u64(&args, "--seed", 1)).expect("io");
             println!("{}", json!({"rows": st.rows, "node_rows": st.node_rows, "pair_rows": st.pair_rows, "bfs_rows": st.bfs_rows, "bound_rows": st.bound_rows, "samples": st.samples}));
+            0
         }
-        _ => { eprintln!("unknown command {cmd}"); std::process::exit(2); }
-    }
+        "replay" => cmd_replay(&args),
+        _ => { eprintln!("unknown command {cmd}"); 2 }
+    };
+    std::process::exit(rc);
 }
